@@ -9,6 +9,7 @@ mod sites;
 mod util;
 mod tables;
 mod builders;
+mod codec;
 
 use std::path::PathBuf;
 
@@ -31,4 +32,6 @@ fn main() {
     let b = builders::translate(&repo);
     util::write_if_changed(&out.join("BuilderTables.v"), &b.coq);
     util::write_if_changed(&out.join("gen_chains.rs"), &b.rust);
+    let c = codec::translate(&repo);
+    util::write_if_changed(&out.join("CodecTables.v"), &c);
 }
